@@ -22,7 +22,7 @@ TECHS = {
 }
 CHECKS = {
  "C01": ("5.1", "Many thousands of seeded whole-cluster simulations (1-10 validators, <=F Byzantine / split-brain / amnesia "
-         "identities, hostile network, early timers, validator-set changes, anti-MEV off/on/switching) with the agreement "
+         "identities driven by random, yes-man and equivocating-primary adversary modes, hostile network incl. event-triggered cuts at the first commit / change view, early timers, validator-set changes, anti-MEV off/on/switching) with the agreement "
          "invariant checked at every ProcessBlock and every ledger-sync block. A fork needs a conjunction of schedule and "
          "faults; sampling that space with real nodes is the strongest practical evidence short of a proof of the protocol "
          "implementation. One known finding (D1 consequence) is reported as KNOWN-FINDING."),
@@ -35,11 +35,11 @@ CHECKS = {
 CHECKS.update({
  "C03": ("5.3", "History-wide oracle over every library instance's complete outbox in the adversarial simulations: one proposal/response hash per view, one commit and one pre-commit per height, no view change and no change-view request after the (pre)commit, retransmissions (direct or embedded in recovery messages) identical to the original, non-decreasing view of own top-level messages."),
  "C04": ("5.4", "Precondition of every prepare response, commit/pre-commit and view increase re-evaluated at the instant it happens, from the node's tables and from the harness's independent record of authentic deliveries (exact and superset tests), with N not of the form 3F+1 included."),
- "C05": ("5.5", "Multi-height adversarial simulations with slow Reset, ledger sync that skips heights and changing validator sets: one decision per initialisation, whole-state fingerprint unchanged by every call on a decided node (except recovery replies), and a full post-Reset audit including the unexported future-message cache (verif accessor)."),
+ "C05": ("5.5", "Multi-height adversarial simulations with slow Reset, ledger sync that skips heights and changing validator sets: one decision per initialisation, whole-state fingerprint unchanged by every call on a decided node (except recovery replies), a full post-Reset audit including the unexported future-message cache (verif accessor), and: every payload for a future height (view) whose sender is a validator of that height is in the cache when OnReceive returns."),
  "C07": ("5.7", "Per-instance automaton over callback/broadcast order in simulations with the anti-MEV extension on from genesis or switching on mid-run, failing ProcessPreBlock/ProcessBlock callbacks, early pre-commits, observers."),
  "C10": ("5.10", "Timer audit after every API call of every undecided validator in all adversarial simulations (armed, right height/view, non-negative duration, expiry not consumed), views capped at 8 per height."),
  "C12": ("5.12", "Obligation tracking per (node, height, view): union of RequestTx arguments vs OnTransaction supplies under the property's precondition, in simulations biased to differing mempools, invalid transactions, slow supply and cached next-view proposals (the nested case)."),
- "C13": ("5.13", "Broadcast / Block.Sign / PreBlock.SetData of observers and flagged validators are violations at the instant they happen, in simulations that place the flagged validator at the primary position at Start and after Resets."),
+ "C13": ("5.13", "Broadcast / Block.Sign / PreBlock.SetData of observers, flagged validators and validators restarted in watch-only mode are violations at the instant they happen (scenarios place the flagged validator at the primary position at Start and after Resets, make proposals fail verification, let verification callbacks reject); plus a differential pair run: the same tape with the special node never started must give the other nodes identical canonical traces."),
  "C14": ("5.14", "Every tape is executed twice against clocks that differ by a constant offset (seconds to decades, both signs, on both sides of the machine's wall clock); canonical traces (timestamps relative to the epoch, hashes as ordinals, timer durations verbatim) must be identical."),
  "C08": ("5.8", "Fault-free synchronous simulations (all honest, latency <= delta << T, exact timers) in which the tape permutes and duplicates the deliveries of every round and delays one node's Reset by up to 1.5 T so that next-height traffic is cached: every validator decides every height in view 0 on the same block and nobody broadcasts a change-view or recovery request (block index 1 of a ledger starting at 0 is outside the precondition, see DESIGN O1)."),
  "C09": ("5.9", "Bounded liveness in GST simulations: <=F validators silent from the start (incl. the first primaries), arbitrary cut sets/instants/durations, amnesia restarts at arbitrary points (between calls, inside Broadcast, inside ProcessBlock); after faults stop every live validator must advance 3 heights within 400 T; with silence from the start on a synchronous network the deciding view is <= the number of silent validators. One protocol-level known finding (L1)."),
